@@ -25,11 +25,16 @@
 (*                 a window is forming and no candle of that timeframe is stored *)
 (*   QPartialChunk the fast simulator generates a timeframe candle from a slice  *)
 (*                 that runs past the end of the series (ValueError)             *)
+(*   QEpochGrid    (TRUE = the code) the partial-candle update sizes the forming    *)
+(*                 candle by `timestamp % timeframe`; EpochOffset is the timestamp *)
+(*                 of the first stored candle (0 for everything up to 1D, not 0    *)
+(*                 mod T for 3D / 1W sessions starting on an arbitrary day)        *)
 (*   QChunkTrading the fast simulator's step is the gcd of the TRADING routes    *)
 (*                 only (the code: gcd of trading AND data routes, which is what *)
 (*                 makes "at most one candle per timeframe per chunk" enough)    *)
 EXTENDS Integers, Sequences, FiniteSets, TLC, Json
-CONSTANTS TFs, TradeTF, Warm, N, MaxFills, Fast, QStale, QEmptyRead, QPartialChunk, QChunkTrading, Export
+CONSTANTS TFs, TradeTF, Warm, N, MaxFills, Fast, QStale, QEmptyRead, QPartialChunk, QChunkTrading,
+          EpochOffset, QEpochGrid, Export
 ASSUME /\ \A T \in TFs : T > 1 /\ Warm % T = 0
        /\ TradeTF \in TFs \cup {1}
 \* _calculate_minimum_candle_step: gcd over router.all_formatted_routes (trading + data routes)
@@ -84,7 +89,8 @@ Abs(j) == Warm + j            \* absolute minute (= timestamp, the store starts 
 Partial(ts, ver) ==
   LET m1p == Add1m(m1, <<ts, ver>>) IN
   /\ m1' = m1p
-  /\ tf' = [T \in TFs |-> LET need == (ts % T) + 1 IN AddTF(tf[T], Row(Tail_(m1p, need)))]
+  /\ tf' = [T \in TFs |-> LET need == IF QEpochGrid THEN ((EpochOffset + ts) % T) + 1 ELSE ((Len(m1p) - 1) % T) + 1
+                       IN AddTF(tf[T], Row(Tail_(m1p, need)))]
 
 \* ---- step simulator --------------------------------------------------------------------------
 AddMinute ==
